@@ -18,11 +18,11 @@ import (
 
 // LNode is one element of a layout grammar.
 type LNode struct {
-	Kind  string // u8 u16 u32 u64 uv | s8 s16 sv (length-prefixed) | bytes (fixed n) | var (variable, length from elsewhere) | rep8 rep16 (counted repetition) | opt
-	N     int64  // byte count for "bytes"
-	Label string // field name read into / written from (last selector component)
-	Body  []LNode
-	lenOf bool   // (writer) the value written is len(Label) or a deferred count
+	Kind     string // u8 u16 u32 u64 uv | s8 s16 sv (length-prefixed) | bytes (fixed n) | var (variable, length from elsewhere) | rep8 rep16 (counted repetition) | opt
+	N        int64  // byte count for "bytes"
+	Label    string // field name read into / written from (last selector component)
+	Body     []LNode
+	lenOf    bool // (writer) the value written is len(Label) or a deferred count
 	deferred bool
 }
 
